@@ -42,7 +42,7 @@ def inject(cid, has_a, has_b, la, lb, ca, cb):
     dist._distinct_value_to_count_map = d
 
 
-def operate(cid, op, rows, dirty=None):
+def operate(cid, op, rows, dirty=None, limit=None):
     """-> outcome tuple (items, raised, close_raised); `dirty` is called at the point where the earlier history
     is allowed to have happened (before the run starts)."""
     from cutplace import validio, errors
@@ -67,7 +67,7 @@ def operate(cid, op, rows, dirty=None):
         if dirty:
             dirty()
         try:
-            for r in validio.rows(cid, rows, on_error=op.split("-")[1]):
+            for r in validio.rows(cid, rows, on_error=op.split("-")[1], validate_until=limit):
                 note(r)
         except errors.DataError as e:
             raised = err(e)
@@ -75,11 +75,11 @@ def operate(cid, op, rows, dirty=None):
         if dirty:
             dirty()
         try:
-            validio.validate(cid, rows)
+            validio.validate(cid, rows, validate_until=limit)
         except errors.DataError as e:
             raised = err(e)
     elif op == "reader-late":
-        reader = validio.Reader(cid, rows, on_error="yield")
+        reader = validio.Reader(cid, rows, on_error="yield", validate_until=limit)
         if dirty:
             dirty()  # another run happened between creating the reader and consuming it
         for r in reader.rows():
@@ -154,13 +154,15 @@ def make(op, nrows):
     def rows_of(keys, vals):
         return [[keys[r], vals[r]] for r in range(nrows)]
 
-    def go(has_a, has_b, la, lb, ca, cb, keys, vals):
+    def go(has_a, has_b, la, lb, ca, cb, keys, vals, header=0, limit=None):
         rows = rows_of(keys, vals)
         with patched(rf.smart_repr(), *rf.srows_patches()):
             fresh = rf.build_cid(CID_TEXT)
-            expected = operate(fresh, op, rows)
+            rf.set_header(fresh, header)
+            expected = operate(fresh, op, rows, limit=limit)
             used = rf.build_cid(CID_TEXT)
-            got = operate(used, op, rows, dirty=lambda: inject(used, has_a, has_b, la, lb, ca, cb))
+            rf.set_header(used, header)
+            got = operate(used, op, rows, dirty=lambda: inject(used, has_a, has_b, la, lb, ca, cb), limit=limit)
         ok = same(got, expected)
         nerr = sum(1 for i in expected[0] if i[0] in ("err", "rejected"))
         cls = "err%d-%s" % (min(nerr, 2), "endfail" if (expected[2] or expected[1]) else "endok")
@@ -168,14 +170,18 @@ def make(op, nrows):
 
     def mk(mode):
         def h(has_a: bool, has_b: bool, la: int, lb: int, ca: int, cb: int, k0: str, k1: str, k2: str, v0: str,
-              v1: str, v2: str):
+              v1: str, v2: str, header: int, has_limit: bool, limit: int):
             assume(la >= 0 and lb >= 0 and ca >= 1 and cb >= 1)
+            # header and limit symbolic: runs that validate no row at all (header covers the data, limit 0) included
+            assume(0 <= header <= nrows and 0 <= limit <= nrows)
+            if op in ("writer", "reader-unclosed-then-close"):
+                assume(not has_limit)
             keys = [k0, k1, k2]
             vals = [v0, v1, v2]
             for i in range(nrows):
                 assume(len(keys[i]) == 1 and 97 <= ord(keys[i]) <= 99)
-                assume(len(vals[i]) <= 2)
-            ok, got, expected, cls = go(has_a, has_b, la, lb, ca, cb, keys, vals)
+                assume(len(vals[i]) <= 1)
+            ok, got, expected, cls = go(has_a, has_b, la, lb, ca, cb, keys, vals, header, limit if has_limit else None)
             return ok, cls
 
         return h
@@ -206,14 +212,87 @@ def make(op, nrows):
                 for _ in r.rows():
                     pass  # abandoned: never closed
 
+        lim = args["limit"] if args.get("has_limit") else None
         with patched(*rf.srows_patches()):
             fresh = interface.create_cid_from_string(CID_TEXT)
-            expected = operate(fresh, op, rows)
+            fresh.data_format._header = args.get("header", 0)
+            expected = operate(fresh, op, rows, limit=lim)
             used = interface.create_cid_from_string(CID_TEXT)
-            got = operate(used, op, rows, dirty=lambda: history(used))
+            used.data_format._header = args.get("header", 0)
+            got = operate(used, op, rows, dirty=lambda: history(used), limit=lim)
         bad = not same(got, expected)
-        return bad, "history: read %r without closing, then %s on %r -> %r ; on a fresh CID -> %r" % (
-            earlier, op, rows, got, expected), "history-independence"
+        return bad, "history: read %r without closing, then %s (header %r, limit %r) on %r -> %r ; on a fresh CID -> %r" % (
+            earlier, op, args.get("header", 0), lim, rows, got, expected), "history-independence"
+
+    return mk, replay
+
+
+HISTORY_OPS = ("rows-yield", "reader-unclosed", "writer", "writer-unclosed", "rows-raise")
+
+
+def run_history(cid, hop, rows):
+    """an earlier run on the same CID: its outcome is ignored, only what it leaves behind matters"""
+    from cutplace import validio, errors
+    try:
+        if hop == "rows-yield":
+            for _ in validio.rows(cid, rows, on_error="yield"):
+                pass
+        elif hop == "rows-raise":
+            for _ in validio.rows(cid, rows, on_error="raise"):
+                pass
+        elif hop == "reader-unclosed":
+            r = validio.Reader(cid, rows, on_error="continue")
+            for _ in r.rows():
+                pass
+        else:
+            with patched((validio.rowio, "DelimitedRowWriter", FakeRowWriter)):
+                w = validio.Writer(cid, object())
+                for row in rows:
+                    try:
+                        w.write_row(row)
+                    except errors.DataError:
+                        pass
+                if hop == "writer":
+                    w.close()
+    except errors.DataError:
+        pass
+
+
+def make_two_runs(hop, op):
+    """a REAL earlier run (symbolic data) followed by the run under test (symbolic data): no knowledge of how checks
+    represent their state is needed -- complements the inductive step, which only covers state the harness knows of"""
+
+    def go(hk, k, v, header):
+        hrows = [[hk[0], ""], [hk[1], ""]]
+        rows = [[k[0], v[0]], [k[1], v[1]]]
+        with patched(rf.smart_repr(), *rf.srows_patches()):
+            fresh = rf.build_cid(CID_TEXT)
+            rf.set_header(fresh, header)
+            expected = operate(fresh, op, rows)
+            used = rf.build_cid(CID_TEXT)
+            run_history(used, hop, hrows)
+            rf.set_header(used, header)
+            got = operate(used, op, rows)
+        ok = same(got, expected)
+        cls = "endfail" if (expected[2] or expected[1]) else "endok"
+        return ok, cls, hrows, rows, got, expected
+
+    def mk(mode):
+        def h(h0: str, h1: str, k0: str, k1: str, v0: str, v1: str, header: int):
+            assume(0 <= header <= 2)
+            for x in (h0, h1, k0, k1):
+                assume(len(x) == 1 and 97 <= ord(x) <= 99)
+            assume(len(v0) <= 1 and len(v1) <= 1)
+            ok, cls, _, _, _, _ = go([h0, h1], [k0, k1], [v0, v1], header)
+            return ok, cls
+
+        return h
+
+    def replay(args):
+        ok, cls, hrows, rows, got, expected = go([args["h0"], args["h1"]], [args["k0"], args["k1"]], [args["v0"], args["v1"]],
+                                                 args["header"])
+        return (not ok), "earlier run %s on %r, then %s (header %d) on %r -> %r ; on a fresh CID -> %r" % (
+            hop, hrows, op, args["header"], rows, got, expected), "history-independence"
 
     return mk, replay
 
@@ -227,10 +306,19 @@ def build(tier, seed):
             mk, rp = make(op, nrows)
             queries.append(Query("C08/%s/rows=%d" % (op, nrows), "one-step", mk,
                                  "arbitrary pre-state of IsUnique (subset of {a,b} at any row) and DistinctCount (any "
-                                 "positive counts), then %s on %d rows (key in {a,b,c}, value len<=2, all symbolic)"
+                                 "positive counts), then %s on %d rows (key in {a,b,c}, value len<=1, header 0..n, limit none/0..n, all symbolic)"
                                  % (op, nrows), budget_s=900 if tier == "quick" else 3000, per_path_timeout=120,
                                  replay=rp, functions=FUNCS,
                                  stubs=("S-ROWS", "S-FMT") + (("row writer replaced by a recorder",) if op == "writer" else ())))
+    pairs = [("reader-unclosed", "rows-yield"), ("rows-yield", "writer"), ("writer-unclosed", "rows-yield"), ("rows-raise", "validate")]
+    if tier == "thorough":
+        pairs = [(a, b) for a in HISTORY_OPS for b in ("rows-yield", "rows-raise", "validate", "writer", "reader-late")]
+    for hop, op in pairs:
+        mk, rp = make_two_runs(hop, op)
+        queries.append(Query("C08/two-runs/%s/then/%s" % (hop, op), "two-runs", mk,
+                             "a real earlier run (%s, 2 rows, keys a/b/c) followed by %s on 2 rows (keys a/b/c, value len<=1), "
+                             "header 0..2, all symbolic" % (hop, op), budget_s=900 if tier == "quick" else 3000,
+                             per_path_timeout=120, replay=rp, functions=FUNCS, stubs=("S-ROWS", "S-FMT")))
     return dict(queries=queries,
                 assumptions=["representation invariant of the built-in checks: the IsUnique map holds key tuples of the "
                              "declared arity mapped to locations, the DistinctCount map holds positive counts",
